@@ -18,6 +18,11 @@
 (*     as fast, the comparison is one of texts)                            *)
 (*   | def v (#define DSYMj v / .byte DSYMj, DSYMj; j the position)        *)
 (*   | ifd v (#ifdef MODE / .byte v, v / #endif)                           *)
+(*   | dft v w (#define DSYMj fast / #if DSYMj == fast / .byte v, v /      *)
+(*     #else / .byte w, w / #endif: the replacement text is the word, not  *)
+(*     the blanks in front of it)                                          *)
+(*   | lin (ldn [ 5 ]: an indirect numeric operand with blanks of the      *)
+(*     style behind the opening and in front of the closing bracket)       *)
 (* Render(P, c) turns P into a sequence of LEXICAL ITEMS under a style c   *)
 (* per statement: letter case of the mnemonic and of a register operand,   *)
 (* kind / amount of blank between tokens, a trailing comment, blank lines, *)
@@ -41,9 +46,9 @@ St(k, n, v, w) == [k |-> k, n |-> n, v |-> v, w |-> w]
 Sy(case, sep, com, place) == [case |-> case, sep |-> sep, com |-> com, place |-> place]
 \* case: "lo" "up" "mi"; sep: "s1" "s3" "tab" "ts"; com: "none" "plain" "quotes"; place: "own" "join" "blank"
 
-IsInstr(s) == s.k \in {"i0", "i1n", "i1l", "i1r", "i1c", "brx", "ldo"}
+IsInstr(s) == s.k \in {"i0", "i1n", "i1l", "i1r", "i1c", "brx", "ldo", "lin"}
 \* joining: an instruction may share a line with the previous instruction, and any statement with a previous label
-IsPre(s) == s.k \in {"cif", "def", "ifd", "cel"}            \* preprocessor statements always start a line
+IsPre(s) == s.k \in {"cif", "def", "ifd", "cel", "dft"}            \* preprocessor statements always start a line
 CanJoin(prev, s) == ~IsPre(s) /\ ((prev.k = "lab" /\ s.k # "lab") \/ (IsInstr(prev) /\ IsInstr(s)))
 
 \* items: [t, a, b]
@@ -66,6 +71,12 @@ StmtItems(s, y, j) ==
                         \o ByteLine(y, It("NUM", "", 0), It("NUM", "", 0)) \o <<NLI, It("DIR", "#endif", "")>>
       [] s.k = "def" -> <<It("DIR", "#define", ""), It("BL", y.sep, ""), It("DSYM", "", j), It("BL", y.sep, ""), It("NUM", "", s.v), NLI>>
                         \o ByteLine(y, It("DSYM", "", j), It("DSYM", "", j))
+      [] s.k = "dft" -> <<It("DIR", "#define", ""), It("BL", y.sep, ""), It("DSYM", "", j), It("BL", y.sep, ""), It("WORD", "fast", ""), NLI,
+                          It("DIR", "#if", ""), It("BL", y.sep, ""), It("DSYM", "", j), It("BL", y.sep, ""), It("OP", "==", ""),
+                          It("BL", y.sep, ""), It("WORD", "fast", ""), NLI>>
+                        \o ByteLine(y, It("NUM", "", s.v), It("NUM", "", s.v)) \o <<NLI, It("DIR", "#else", ""), NLI>>
+                        \o ByteLine(y, It("NUM", "", s.w), It("NUM", "", s.w)) \o <<NLI, It("DIR", "#endif", "")>>
+      [] s.k = "lin" -> <<It("MN", "ldn", y.case), It("BL", y.sep, ""), It("LBR", "", ""), It("BL", y.sep, ""), It("NUM", "", 5), It("BL", y.sep, ""), It("RBR", "", "")>>
       [] s.k = "ifd" -> <<It("DIR", "#ifdef", ""), It("BL", y.sep, ""), It("SYM", "MODE", ""), NLI>>
                         \o ByteLine(y, It("NUM", "", s.v), It("NUM", "", s.v)) \o <<NLI, It("DIR", "#endif", "")>>
       [] s.k = "lab" -> <<It("LAB", s.n, "")>>
@@ -133,6 +144,11 @@ NormStmts(s, j) ==              \* the tokenizer's statements for one abstract s
                            <<<<"DIR", "#elif">>, <<"SYM", "MODE">>, <<"OP", "==">>, <<"WORD", "fast">>>>, NormByte(<<"NUM", s.w>>, <<"NUM", s.w>>),
                            <<<<"DIR", "#else">>>>, NormByte(<<"NUM", 0>>, <<"NUM", 0>>), <<<<"DIR", "#endif">>>> >>
       [] s.k = "def" -> << <<<<"DIR", "#define">>, <<"DSYM", j>>, <<"NUM", s.v>>>>, NormByte(<<"DSYM", j>>, <<"DSYM", j>>) >>
+      [] s.k = "dft" -> << <<<<"DIR", "#define">>, <<"DSYM", j>>, <<"WORD", "fast">>>>,
+                           <<<<"DIR", "#if">>, <<"DSYM", j>>, <<"OP", "==">>, <<"WORD", "fast">>>>,
+                           NormByte(<<"NUM", s.v>>, <<"NUM", s.v>>), <<<<"DIR", "#else">>>>, NormByte(<<"NUM", s.w>>, <<"NUM", s.w>>),
+                           <<<<"DIR", "#endif">>>> >>
+      [] s.k = "lin" -> << <<<<"MN", "ldn">>, <<"LBR", "">>, <<"NUM", 5>>, <<"RBR", "">>>> >>
       [] s.k = "ifd" -> << <<<<"DIR", "#ifdef">>, <<"SYM", "MODE">>>>, NormByte(<<"NUM", s.v>>, <<"NUM", s.v>>), <<<<"DIR", "#endif">>>> >>
       [] OTHER       -> << NormByte(<<"NUM", s.v>>, <<"NUM", s.w>>) >>
 RECURSIVE NormFrom(_, _)
@@ -155,7 +171,8 @@ StmtBytes(p, s, at) ==
       [] s.k = "strg" -> <<103, 108, 111, 98, 49, 58, 32, 98, 0>>
       [] s.k = "strt" -> <<97, 9, 98, 0>>               \* "a<TAB>b": a tab character inside a string is data, wherever the string starts
       [] s.k = "cif" -> IF s.n = "eq" THEN <<s.v, s.v>> ELSE <<s.w, s.w>>     \* MODE is fast: the texts are compared
-      [] s.k \in {"def", "ifd"} -> <<s.v, s.v>>
+      [] s.k \in {"def", "ifd", "dft"} -> <<s.v, s.v>>
+      [] s.k = "lin" -> <<209, 5>>
       [] s.k = "cel" -> <<s.w, s.w>>
       [] OTHER -> <<s.v, s.w>>
 \* the local label l1 lives in the region opened by the global label g1: g1 has to come before its definition and uses
